@@ -123,6 +123,27 @@ func genC09(r *kit.RNG, tier string) *C09Scenario {
 		sc.Enumerate = 1
 		return sc
 	}
+	if r.Chance(0.07) {
+		// Template: a key is announced, then no refresh is accepted for about the length of
+		// the add hold-down (signatures broken), and the first accepted refresh after that no
+		// longer carries the key — "present in every accepted refresh" fails at the last one.
+		sc.Keys = []C09Key{{Alg: dns.ED25519, Idx: 100 + r.Intn(40)}, {Alg: dns.ED25519, Idx: 200 + r.Intn(40)}}
+		sc.Days = 80
+		sc.Config = []int{0}
+		t1 := r.Range(1, 5) * 1440
+		dark := t1 + kit.Pick(r, []int{720, 1440})
+		back := t1 + kit.Pick(r, []int{29, 30, 31, 33, 40})*1440 + r.Intn(1440)
+		sc.Pubs = []C09Pub{{AtMin: 0, Keys: []int{0}, Signers: []int{0}},
+			{AtMin: t1, Keys: []int{0, 1}, Signers: []int{0}},
+			{AtMin: dark, Keys: []int{0, 1}, Signers: []int{0}, Forge: kit.Pick(r, []string{"badsig", "nosig"})},
+			{AtMin: back, Keys: []int{0}, Signers: []int{0}}}
+		if r.Chance(0.5) {
+			sc.Pubs = append(sc.Pubs, C09Pub{AtMin: back + kit.Pick(r, []int{1440, 5 * 1440}), Keys: []int{0, 1}, Signers: []int{0}})
+		}
+		sc.CrashConfig = []int{0}
+		sc.Enumerate = 1
+		return sc
+	}
 	algs := []uint8{dns.ED25519, dns.ED25519, dns.ECDSAP256SHA256, dns.RSASHA256}
 	nkeys := r.Range(3, 7)
 	for i := 0; i < nkeys; i++ {
